@@ -797,7 +797,9 @@ def run(rep, tier, seed, parts=None):
         "impulse pair with every height pair + ramps + checkerboards of a 3-value alphabet, batched along a leading dimension; full "
         "products over all bins on 2x3, 3x2, 2x2 grids and on frequency-only spectra; rotate: every whole number of bins -nd..nd, 720, "
         "7.3, -33, 0.001, 400.5; every api (interp with arrays / lists, interp_like, regrid_spec on a Dataset) cyclically and all of "
-        "them x (time,site) layout x float32 on a reduced set; no-leading-dimension single spectra. Non-trivial = non-zero spectrum on "
+        "them x (time,site) layout x float32 on a reduced set; no-leading-dimension single spectra; sources stored with descending "
+        "frequencies (maintain_m0=False). Quick tier only: stored orders rotated by >=2 positions meet every direction target but only "
+        "the frequency targets {unchanged, both}; products run maintain_m0=True only. Non-trivial = non-zero spectrum on "
         "a target grid different from the source grid (rotate: angle != 0).")
     rep.assumptions = [
         "maintain_m0=True: a spectrum with energy whose interpolant puts no energy at all on the target grid (target entirely above the source "
